@@ -8,6 +8,7 @@ require (
 	github.com/oklog/ulid/v2 v2.1.2
 	github.com/prometheus/alertmanager v0.0.0
 	github.com/prometheus/client_golang v1.24.1
+	github.com/prometheus/client_model v0.6.2
 	github.com/prometheus/common v0.70.1
 	github.com/prometheus/exporter-toolkit v0.17.1
 	go.opentelemetry.io/otel v1.44.0
@@ -87,7 +88,6 @@ require (
 	github.com/mwitkow/go-conntrack v0.0.0-20190716064945-2f068394615f // indirect
 	github.com/oklog/run v1.2.0 // indirect
 	github.com/pierrec/lz4/v4 v4.1.26 // indirect
-	github.com/prometheus/client_model v0.6.2 // indirect
 	github.com/prometheus/procfs v0.21.1 // indirect
 	github.com/prometheus/sigv4 v0.4.1 // indirect
 	github.com/rs/cors v1.11.1 // indirect
@@ -123,4 +123,5 @@ require (
 replace github.com/prometheus/alertmanager => /repo
 
 replace github.com/cenkalti/backoff/v5 => ../third_party/backoff
+
 replace github.com/hashicorp/memberlist => ../third_party/memberlist
